@@ -16,7 +16,7 @@ to do what their documentation says).
 import ast
 
 from ..astutil import last_name, u
-from ..effects import TreeFx, walk_no_nested, is_copy_of_same_slot, PAYLOAD_MUT, GRAPH_MUT
+from ..effects import TreeFx, walk_no_nested, is_copy_of_same_slot, plain_events, PAYLOAD_MUT, GRAPH_MUT
 from ..formula import extract, spec
 from ..model import AnalysisError
 from ..paths import enumerate_paths
@@ -29,7 +29,7 @@ NODE = "tree.tree_node.TreeNode"
 # =========================================================================== M1
 def rule_M1(ctx, fx):
     prog = ctx.prog
-    ctx.rule("M1", "every likelihood-affecting write on a tree is followed, on every path to a normal exit, by _update_path_to_root / update / __init__ of that tree (private helpers: obligation lifted to all call sites)", 10)
+    ctx.rule("M1", "every likelihood-affecting write on a tree is followed, on every path to a normal exit, by _update_path_to_root / update / __init__ of that tree (private helpers: obligation lifted to all call sites)", 16)
     lifted = {}
     for fi in list(prog.functions.values()):
         if fi.cls is fx.payload_cls:
@@ -141,7 +141,7 @@ def _final_value(fi, ex, attr):
 def payload_summary(ctx):
     """M3 obligations + the summary M2 consumes: {method: True iff log_r moves with log_p}."""
     prog = ctx.prog
-    ctx.rule("M3", "payload add/remove adjust log_p by plus/minus the data point's grid and keep the membership set in step; how log_r is treated is summarised for M2", 3)
+    ctx.rule("M3", "payload add/remove adjust log_p by plus/minus the data point's grid and keep the membership set in step; how log_r is treated is summarised for M2", 6)
     summary = {}
     for name, (src, sign) in SPEC_M3.items():
         fi = prog.fn("TreeNode." + name)
@@ -175,7 +175,7 @@ def payload_summary(ctx):
 
 
 # =========================================================================== M2
-OPAQUE_NAV = {"get_parent", "_update_path_to_root", "update", "__init__", "copy", "_relabel_grafted_subtree_nodes"}
+OPAQUE_NAV = {"get_parent", "_update_path_to_root", "update", "__init__", "copy"}
 
 
 class _TermView:
@@ -223,9 +223,7 @@ class _TermView:
         if a[0] == "mcall" and a[1] == "get_parent" and a[2] == self.S and len(a[3]) == 1 and not a[4]:
             c = self.canon(a[3][0])
             return None if c is None else (c[0], c[1] + 1)
-        if a[0] in ("cond",):
-            return None
-        return (k, 0)
+        return (k, 0)  # any other term (a parameter, a loop element, a guarded alternative) names a node by itself
 
     def payload_node(self, recv):
         """Name key of the node whose payload `recv` (= S._graph[idx]) is."""
@@ -257,7 +255,7 @@ def _compatible(g1, g2):
 
 def rule_M2(ctx, fx, summary):
     prog = ctx.prog
-    ctx.rule("M2", "each path refresh starts low enough: at the node after a payload edit that leaves log_r inconsistent, at the node or its parent otherwise; at the lowest node whose child set a structural edit changed", 5)
+    ctx.rule("M2", "each path refresh starts low enough: at the node after a payload edit that leaves log_r inconsistent, at the node or its parent otherwise; at the lowest node whose child set a structural edit changed", 8)
     for name, fi in fx.tree_methods.items():
         me = fx.self_name(fi)
         if me is None or fi.name in ("__init__",):
@@ -275,11 +273,12 @@ def rule_M2(ctx, fx, summary):
 def _m2_method(ctx, prog, fi, summary):
     ex = extract(prog, fi, opaque_self_methods=OPAQUE_NAV)
     S = vkey(Poly.atom(("v", "P0")))
-    tv = _TermView(S, ex.events)
+    events = plain_events(ex.events)  # `self` after an opaque call made for its effect is still `self`
+    tv = _TermView(S, events)
     dirty, refresh = [], []
     seen = set()
     composed = False
-    for pos, e in enumerate(ex.events):
+    for pos, e in enumerate(events):
         nm = e.name[1:] if e.name.startswith(".") else e.name
         on_graph = e.recv is not None and tv.is_attr(vkey(e.recv), "_graph")
         on_self = e.recv is not None and vkey(e.recv) == S
@@ -354,6 +353,8 @@ def _m2_method(ctx, prog, fi, summary):
         dirty.append((pos, e, D, what))
     if not dirty:
         raise AnalysisError("M2: %s writes likelihood-affecting state but no such event was extracted" % fi.qualname)
+    if not refresh:
+        raise AnalysisError("M2: %s refreshes the tree but no refresh event on `self` was extracted" % fi.qualname)
 
     def covers(r, d):
         kind, c, _ = r
@@ -416,7 +417,7 @@ DEPTH = {
 }
 FRESH_CTORS = {"defaultdict", "dict", "list", "set", "PyDiGraph", "TreeNode", "Tree", "__new__", "full", "zeros", "empty", "ones"}
 SHALLOW_COPY_FUNCS = {"list", "dict", "set", "sorted", "frozenset", "tuple", "array", "asarray_copy", "deque"}
-SCALAR_FUNCS = {"str", "int", "float", "len", "bool", "log", "hash"}
+SCALAR_FUNCS = {"str", "int", "float", "len", "bool", "log", "hash", "range"}
 FRESH_RESULT_METHODS = {"edge_list", "node_indices", "num_nodes", "items", "keys", "values", "weighted_edge_list"}
 
 
@@ -429,11 +430,26 @@ class _Alias:
         self.sources = sources  # parameter names whose content is foreign state
         self.depth = depth
         self.defs = {}
+        self.loopvars = {}  # name -> (domain expr, 'elem' | 'items-key' | 'items-value' | 'keys')
         for n in walk_no_nested(fi.node):
             if isinstance(n, ast.Assign):
                 for t in n.targets:
                     if isinstance(t, ast.Name):
                         self.defs.setdefault(t.id, []).append(n.value)
+            elif isinstance(n, ast.For):
+                it, mode = n.iter, "elem"
+                if isinstance(it, ast.Call) and isinstance(it.func, ast.Attribute) and it.func.attr in ("items", "values", "keys") and not it.args:
+                    it, mode = it.func.value, it.func.attr
+                tg = n.target
+                if mode == "items" and isinstance(tg, ast.Tuple) and len(tg.elts) == 2:
+                    for t, md in zip(tg.elts, ("key", "elem")):
+                        for x in ast.walk(t):
+                            if isinstance(x, ast.Name):
+                                self.loopvars[x.id] = (it, md)
+                else:
+                    for x in ast.walk(tg):
+                        if isinstance(x, ast.Name):
+                            self.loopvars[x.id] = (it, "key" if mode == "keys" else "elem")
 
     def shared(self, e, env=None, stack=()):
         """None (nothing mutable shared) or (label, level, attr-or-None)."""
@@ -449,6 +465,12 @@ class _Alias:
                 return ("self", 0, None)
             if e.id in self.sources:
                 return (e.id, 0, None)
+            if e.id in self.loopvars and e.id not in self.defs and e.id not in stack:
+                dom, md = self.loopvars[e.id]
+                if md == "key":
+                    return None  # dictionary keys / indices are immutable
+                b = self.shared(dom, env, stack + (e.id,))
+                return None if b is None else (b[0], b[1] + 1, b[2])
             if e.id in self.defs and e.id not in stack:
                 worst = None
                 for v in self.defs[e.id]:
@@ -579,9 +601,26 @@ def _payload_loop(fi, R, fn):
     return None
 
 
+def _payload_copy_site(fx, fi, R, fn):
+    """The loop itself, or a call `R.helper()` of a Tree method whose body is such a loop over its own graph."""
+    loop = _payload_loop(fi, R, fn)
+    if loop is not None:
+        return loop.iter
+    for n in walk_no_nested(fi.node):
+        if isinstance(n, ast.Call) and isinstance(n.func, ast.Attribute) and isinstance(n.func.value, ast.Name) and n.func.value.id == R and n.func.attr in fx.tree_methods:
+            h = fx.tree_methods[n.func.attr]
+            me = fx.self_name(h)
+            if me is None:
+                continue
+            hl = _payload_loop(h, me, fx.fn(h))
+            if hl is not None and all(any(s.kind == "iter" and s.node is hl.iter for s in steps) for steps, oc in enumerate_paths(h.node.body) if oc in ("fall", "return")):
+                return n
+    return None
+
+
 def rule_M4(ctx, fx):
     prog = ctx.prog
-    ctx.rule("M4", "copies are deep: nothing mutable reachable from the source is stored in the result without a copy of sufficient depth; every payload is replaced by its own copy; add_subtree grafts a copy of the incoming subtree", 9)
+    ctx.rule("M4", "copies are deep: nothing mutable reachable from the source is stored in the result without a copy of sufficient depth; every payload is replaced by its own copy; add_subtree grafts a copy of the incoming subtree", 22)
     sites = [("TreeNode.__copy__", "TreeNode"), ("Tree.copy", "Tree"), ("Tree.get_subtree", "Tree"), ("Tree.to_dict", "Tree"), ("Tree.from_dict", "Tree")]
     for qn, cname in sites:
         fi = prog.fn(qn)
@@ -654,8 +693,8 @@ def rule_M4(ctx, fx):
         for R, st in sharing_stmts:
             n_inst += 1
             inst = "%s: every payload of %s._graph replaced by its copy after %s" % (_short(fi), R, u(st)[:60])
-            loop = _payload_loop(fi, R, fn)
-            ok = loop is not None
+            site = _payload_copy_site(fx, fi, R, fn)
+            ok = site is not None
             why = "the graph of the result shares its TreeNode payloads with the source and no loop over %s._graph.node_indices() replaces each by its own .copy(): log_p / log_r arrays are then shared between the two trees" % R
             if ok:
                 # the loop must lie on every path from the sharing statement to a normal exit
@@ -667,7 +706,7 @@ def rule_M4(ctx, fx):
                     if not idx:
                         continue
                     hit = True
-                    if not any(s.kind == "iter" and s.node is loop.iter for s in steps[idx[0] + 1:]):
+                    if not any((s.node is site) if s.kind == "iter" else (s.kind != "with" and any(x is site for x in walk_no_nested(s.node))) for s in steps[idx[0] + 1:]):
                         ok = False
                         why = "some path from the statement that shares the payloads to a normal exit does not pass the payload-copy loop"
                 if not hit:
@@ -691,10 +730,11 @@ def rule_M4(ctx, fx):
             return any(bare(x) for x in k)
         return False
 
-    comp = [e for e in ex.events if e.name == ".compose"]
+    events = plain_events(ex.events)
+    comp = [e for e in events if e.name == ".compose"]
     if not comp:
         raise AnalysisError("M4: Tree.add_subtree no longer composes the incoming graph")
-    bad = [e for e in ex.events if e.name not in (".copy", ".__copy__") and (any(bare(vkey(a)) for a in e.args) or (e.recv is not None and bare(vkey(e.recv))))]
+    bad = [e for e in events if e.name not in (".copy", ".__copy__") and (any(bare(vkey(a)) for a in e.args) or (e.recv is not None and bare(vkey(e.recv))))]
     ctx.check(not bad, "M4", "tree.tree.Tree.add_subtree: the incoming subtree is copied before it is composed into the tree", fi.where(bad[0].node) if bad else fi.where(), "the caller's subtree object itself (not a copy) reaches %s: its payloads and data lists become shared with this tree, and the callers graft the same subtree repeatedly" % (bad[0].name if bad else ""), construct=fi.qualname, stmt="subtree copied before compose")
     ctx.analysed(fi)
 
@@ -757,6 +797,9 @@ SELFTEST = [
     {"name": "benign-add_subtree-refresh-by-parent-name", "kind": "benign", "file": _T, "old": "        self._last_node_added_to = subtree._last_node_added_to\n\n        self._update_path_to_root(parent_node.node_id)", "new": "        self._last_node_added_to = subtree._last_node_added_to\n\n        self._update_path_to_root(parent)"},
     {"name": "benign-payload-add-as-plain-assignment", "kind": "benign", "file": _N, "old": "        self.log_p += data_point.value\n        self.log_r += data_point.value", "new": "        v = data_point.value\n        self.log_r = v + self.log_r\n        self.log_p = self.log_p + v"},
     {"name": "benign-copy-map-with-dict()", "kind": "benign", "file": _T, "old": "        new._node_indices = self._node_indices.copy()\n\n        new._node_indices_rev", "new": "        new._node_indices = dict(self._node_indices)\n\n        new._node_indices_rev"},
+    {"name": "benign-payload-copy-loop-extracted", "kind": "benign", "edits": [
+        {"file": _T, "old": "        for node_idx in new._graph.node_indices():\n            new._graph[node_idx] = new._graph[node_idx].copy()\n\n        return new", "new": "        new._own_payloads()\n\n        return new"},
+        {"file": _T, "old": "    def get_children(self, node):", "new": "    def _own_payloads(self):\n        g = self._graph\n        for i in g.node_indices():\n            g[i] = g[i].copy()\n\n    def get_children(self, node):"}]},
     {"name": "benign-print-and-split", "kind": "benign", "file": _T, "old": "        self._graph.add_edge(root_idx, node_idx, None)\n\n        for child in children:", "new": "        print(\"new root\", node)\n        g = self._graph\n        g.add_edge(root_idx, node_idx, None)\n\n        for child in children:"},
     {"name": "benign-remove-also-adjusts-log_r-and-refreshes-from-parent", "kind": "benign", "edits": [
         {"file": _N, "old": "        self.log_p -= data_point.value", "new": "        self.log_p -= data_point.value\n        self.log_r -= data_point.value"},
